@@ -54,3 +54,24 @@ Proof.
   - now rewrite (in_bounds_length sh a Ha), (in_bounds_length sh b Hb).
   - pose proof (ravel_lex_mono sh b a Hb Ha H). lia.
 Qed.
+
+(* itertools.product order: all_indices is strictly increasing for the lexicographic order *)
+From Coq Require Import Sorted.
+
+Lemma StronglySorted_map_seq {A} (R : A -> A -> Prop) (f : nat -> A) : forall n a,
+  (forall i j, a <= i -> i < j -> j < a + n -> R (f i) (f j)) ->
+  StronglySorted R (map f (seq a n)).
+Proof.
+  induction n as [|n IH]; intros a H; cbn [seq map]; constructor.
+  - apply IH. intros i j Hi Hij Hj. apply H; lia.
+  - apply Forall_forall. intros x Hx. apply in_map_iff in Hx as [j [<- Hj]]. apply in_seq in Hj.
+    apply H; lia.
+Qed.
+
+Lemma all_indices_lex_sorted sh : StronglySorted lex_lt (all_indices sh).
+Proof.
+  rewrite <- unravel_enumerates. apply StronglySorted_map_seq.
+  intros i j _ Hij Hj. cbn [Nat.add] in Hj.
+  apply (ravel_lt_lex sh); try (apply unravel_in_bounds; lia).
+  rewrite !ravel_unravel by lia. exact Hij.
+Qed.
